@@ -57,6 +57,13 @@ def op_affs(op):
         return [['=slice', reg, lo, lo + w, mem]]
     raise ValueError(op)
 
+def multi_affs(op):
+    """Several assignments committed by ONE eval_instr (parallel assignment)."""
+    out = []
+    for sub in op['subs']:
+        out += op_affs(sub)
+    return out
+
 def build_aff(a):
     s = sut()
     E = s.E
@@ -177,8 +184,8 @@ def run_real(ops):
     trace = []
     for op in ops:
         reset_budget()
-        if op['op'] in ('store', 'load'):
-            affs = op_affs(op)
+        if op['op'] in ('store', 'load', 'multi'):
+            affs = multi_affs(op) if op['op'] == 'multi' else op_affs(op)
             real = [build_aff(a) for a in affs]
             ser = [canon.ser_expr(a) for a in real]
             try:
@@ -550,6 +557,25 @@ def gen_history(rng):
             b = base if rng.random() < 0.85 else 'stack'
             w = rng.choice([8, 16, 32])
             off = gen_off(rng)
+            if rng.random() < 0.12:
+                # one instruction, several assignments, all reading the pre-state
+                y = rng.random()
+                r1, r2 = rng.sample(DATA_REGS32, 2)
+                if y < 0.35:      # exchange a register with memory
+                    subs = [{'op': 'load', 'w': 32, 'base': b, 'off': off, 'dst': r1},
+                            {'op': 'store', 'w': 32, 'base': b, 'off': off, 'src': ['reg', r1, 0]}]
+                elif y < 0.6:     # load a register and overwrite (part of) what it was loaded from
+                    subs = [{'op': 'load', 'w': 32, 'base': b, 'off': off, 'dst': r1},
+                            {'op': 'store', 'w': w, 'base': b, 'off': off + rng.choice([0, 1, 2]), 'src': ['reg', r2, 0]}]
+                elif y < 0.8:     # two disjoint (possibly adjacent) stores
+                    w2 = rng.choice([8, 16, 32])
+                    subs = [{'op': 'store', 'w': w, 'base': b, 'off': off, 'src': ['reg', r1, 0]},
+                            {'op': 'store', 'w': w2, 'base': b, 'off': off + w // 8 + rng.choice([0, 0, 1]), 'src': ['load', b, off]}]
+                else:             # store computed from a cell that the same instruction overwrites
+                    subs = [{'op': 'store', 'w': 32, 'base': b, 'off': off, 'src': ['load', b, off + rng.choice([-2, -1, 1, 2, 4])]},
+                            {'op': 'load', 'w': 16, 'base': b, 'off': off + 1, 'dst': r2, 'lo': 0}]
+                ops.append({'op': 'multi', 'subs': subs})
+                continue
             if rng.random() < 0.6:
                 y = rng.random()
                 if y < 0.5:
@@ -585,7 +611,10 @@ def overlap_classes(ops):
     on the same base (coverage measure)."""
     out = set()
     stores = []
+    flat = []
     for op in ops:
+        flat += op['subs'] if op['op'] == 'multi' else [op]
+    for op in flat:
         if op['op'] == 'store':
             stores.append(op)
         elif op['op'] == 'load':
